@@ -215,19 +215,26 @@ def apply_history(tw, hist):
     for op in hist:
         kind = op[0]
         n0 = len(tw.sims["A"].cmds)
-        if kind == "push":
-            ctx = mc(**FRAMES[op[1]])
-            ctx.__enter__()
-            opened.append(ctx)
-            model.append(("ctx", dict(FRAMES[op[1]])))
-        elif kind == "app":
-            ctx = mc.application(op[1])
-            ctx.__enter__()
-            opened.append(ctx)
-            model.append(("app", {"app_id": op[1]}))
-        elif kind == "update":
-            mc.update_current_context(**UPDATES[op[1]])
-            model[-1][1].update(UPDATES[op[1]])
+        try:
+            if kind == "push":
+                ctx = mc(**FRAMES[op[1]])
+                ctx.__enter__()
+                opened.append(ctx)
+                model.append(("ctx", dict(FRAMES[op[1]])))
+            elif kind == "app":
+                ctx = mc.application(op[1])
+                ctx.__enter__()
+                opened.append(ctx)
+                model.append(("app", {"app_id": op[1]}))
+            elif kind == "update":
+                mc.update_current_context(**UPDATES[op[1]])
+                model[-1][1].update(UPDATES[op[1]])
+        except Exception as e:
+            problems.append(("history_exception", "%r raised %s: %s"
+                             % (op, type(e).__name__, e)))
+            return model, problems, opened
+        if kind in ("push", "app", "update"):
+            pass
         elif kind in ("pop", "pop_exc"):
             if not opened:
                 continue
